@@ -143,6 +143,41 @@ func runC10(cs *vrt.Case) {
 			inputs = append(inputs, v)
 		}
 		cs.Count("deep_circuit_and_levels", int64(depth))
+	} else if !triples && cs.Idx%16 == 5 {
+		// a party without input bits: an unsized []byte argument instantiated with
+		// length 0 (a party that only wants the result), at a PRNG position
+		P = 3
+		what = "party with a zero-width input"
+		zero := r.Intn(3)
+		names := []string{"a", "b", "c"}
+		var args, uses []string
+		sizes := make([][]int, 3)
+		for i, n := range names {
+			if i == zero {
+				args = append(args, n+" []byte")
+				sizes[i] = []int{0}
+			} else {
+				args = append(args, n+" uint8")
+				sizes[i] = []int{8}
+				uses = append(uses, n)
+			}
+		}
+		src = fmt.Sprintf("package main\n\nfunc main(%s) (uint8, uint8, int32) {\n\treturn %s * %s, %s ^ %s, len(%s)\n}\n", strings.Join(args, ", "), uses[0], uses[1], uses[0], uses[1], names[zero])
+		for i := 0; i < P; i++ {
+			pp := utils.NewParams()
+			pp.Target = utils.TargetGMW
+			c, err, pan := compileMPCL(src, pp, sizes)
+			if err != nil || pan != nil {
+				cs.Inconc(fmt.Sprintf("zero-width fixture does not compile: %v %v", err, pan))
+				return
+			}
+			c.AssignLevels(utils.TargetGMW)
+			circs = append(circs, c)
+		}
+		for i := 0; i < P; i++ {
+			inputs = append(inputs, r.BoundaryBig(int(circs[0].Inputs[i].Type.Bits)))
+		}
+		cs.Count("runs_with_a_zero_width_party", 1)
 	} else if !triples {
 		if cs.Idx%8 == 0 && P <= 3 {
 			src = c10Fixtures[(cs.Idx/8)%len(c10Fixtures)]
